@@ -379,16 +379,28 @@ fn thread_cpu_secs(tid: u64) -> Option<f64> {
 /// An evaluation that spins without ever yielding to the simulator cannot be pre-empted on one thread
 /// and cannot be shrunk; it is reported as it is (seed, index, generated scenario) and the process ends.
 fn report_stuck(check: &dyn Erased, seed: u64, tier: Tier, index: u64) -> ! {
-    let (tx, rx) = std::sync::mpsc::channel();
-    // regenerate the scenario on the side (generation is a pure function of seed and index)
-    let sc = std::thread::scope(|s| {
-        s.spawn(|| {
-            let _ = tx.send(check.scenario(seed, index, tier));
-        });
-        rx.recv_timeout(std::time::Duration::from_secs(20)).unwrap_or(Value::Null)
-    });
+    // regenerate the scenario on the side, in another process: generation is a pure function of seed and index, but a
+    // generator that executes the scenario itself (to learn its frame layout) would hang just like the evaluation did
+    let sc = std::env::current_exe()
+        .ok()
+        .and_then(|exe| std::process::Command::new(exe).args(["scenario", check.id(), &seed.to_string(), &index.to_string(), tier.name()]).stdout(std::process::Stdio::piped()).stderr(std::process::Stdio::null()).spawn().ok())
+        .and_then(|mut child| {
+            let t0 = Instant::now();
+            loop {
+                match child.try_wait() {
+                    Ok(Some(_)) => break child.wait_with_output().ok().and_then(|o| serde_json::from_slice::<Value>(&o.stdout).ok()),
+                    Ok(None) if t0.elapsed().as_secs() < 20 => std::thread::sleep(std::time::Duration::from_millis(100)),
+                    _ => {
+                        let _ = child.kill();
+                        let _ = child.wait();
+                        break None;
+                    }
+                }
+            }
+        })
+        .unwrap_or(Value::Null);
     let msg = format!("evaluation #{index} did not finish (more than {} s of CPU time burnt, or blocked for five times as long): the code under simulation loops without yielding or blocks the thread (virtual time cannot advance)", stuck_limit_s());
-    let path = write_replay(check, seed, index, STUCK_RULE, &sc, &msg);
+    let path = write_replay_tier(check, seed, index, STUCK_RULE, &sc, &msg, Some(tier));
     println!("violation: property={} rule={} seed={} index={} (not minimised): {}", check.id(), STUCK_RULE, seed, index, msg);
     println!("VIOLATION property={} replay={}", check.id(), path.display());
     let ev = json!({
@@ -591,6 +603,10 @@ pub fn load_known() -> KnownFile {
 }
 
 pub fn write_replay(check: &dyn Erased, seed: u64, index: u64, rule: &str, sc: &Value, msg: &str) -> PathBuf {
+    write_replay_tier(check, seed, index, rule, sc, msg, None)
+}
+
+pub fn write_replay_tier(check: &dyn Erased, seed: u64, index: u64, rule: &str, sc: &Value, msg: &str, tier: Option<Tier>) -> PathBuf {
     let dir = out_dir().join("replays");
     let _ = std::fs::create_dir_all(&dir);
     let safe_rule: String = rule
@@ -604,6 +620,7 @@ pub fn write_replay(check: &dyn Erased, seed: u64, index: u64, rule: &str, sc: &
         "message": msg,
         "seed": seed,
         "index": index,
+        "tier": tier.map(|t| t.name()),
         "scenario": sc,
     });
     let _ = std::fs::write(&path, serde_json::to_string_pretty(&body).unwrap());
@@ -629,12 +646,18 @@ pub fn replay_file(checks: &[Box<dyn Erased>], path: &str) -> i32 {
     // a replay of a run that never terminates must itself terminate
     let limit = stuck_limit_s();
     let scv = v["scenario"].clone();
+    // (a scenario whose very generation hangs is stored as seed and index only)
+    let regen = if scv.is_null() { v["seed"].as_u64().zip(v["index"].as_u64()).map(|(s, i)| (s, i, if v["tier"].as_str() == Some("thorough") { Tier::Thorough } else { Tier::Quick })) } else { None };
     let res = std::thread::scope(|s| {
         let (tx, rx) = std::sync::mpsc::channel();
         let tid = std::sync::Arc::new(AtomicU64::new(0));
         let tid2 = tid.clone();
         s.spawn(move || {
             tid2.store(current_tid(), Ordering::SeqCst);
+            let scv = match regen {
+                Some((s, i, t)) => check.scenario(s, i, t),
+                None => scv,
+            };
             let _ = tx.send(check.execute_json(&scv));
         });
         let started = Instant::now();
